@@ -160,7 +160,9 @@ func runCase(run *lib.Run, c int64, base string) {
 		}
 	}
 	target := base0 + 1
-	B := bound(n)
+	// the backlog counts too: every round already spent at the height left a proposal, its parts and
+	// 2n votes behind that the suffix has to deliver to everybody before anything new can happen
+	B := bound(n) + int(maxRound)*n*60
 	before := net.Steps
 	steps, ok := adv.FairSuffix(target, B)
 	_ = steps
@@ -261,7 +263,7 @@ func main() {
 		return
 	}
 	run := lib.NewRun(prop, "exploration")
-	run.SetRule("seeded cases: 1-7 real ConsensusStates, Byzantine subset < 1/3, a random adversarial prefix of 0..1500 (quick) / 0..4000 (thorough) actions under nine profiles (balanced, premature timeouts, crash/restart, Byzantine-heavy, lossy, partitions, equivocation template, lock+crash template, silence with only timeouts), then a fair suffix (everything produced is delivered to everyone; timeouts fire in schedule order when nothing else is possible); required: every honest validator commits two further heights within B = 6000 + 1500*N^2 logical steps each. Non-trivial = distinct action trace with a prefix of more than 50 actions.")
+	run.SetRule("seeded cases: 1-7 real ConsensusStates, Byzantine subset < 1/3, a random adversarial prefix of 0..1500 (quick) / 0..4000 (thorough) actions under nine profiles (balanced, premature timeouts, crash/restart, Byzantine-heavy, lossy, partitions, equivocation template, lock+crash template, silence with only timeouts), then a fair suffix (everything produced is delivered to everyone; timeouts fire in schedule order when nothing else is possible); required: every honest validator commits two further heights within B = 6000 + 1500*N^2 + 60*N*(highest round at the end of the prefix) logical steps each. Non-trivial = distinct action trace with a prefix of more than 50 actions.")
 	run.Assume("liveness is decided as bounded progress after a finite adversarial prefix; unbounded 'eventually' is out of reach of any finite run", "the harness plays ideal gossip in the suffix: every message any node processed, or a Byzantine key signed, is offered to every node", "deadlocks between the real receive/timeout/gossip goroutines are not reachable in the single-threaded engine (steps that hang hit the worker watchdog = inconclusive)")
 	run.RunWorkers(16, time.Duration(lib.Pick(20, 60))*time.Minute, nil, nil)
 	runLive(run)
